@@ -219,7 +219,7 @@ def addBuild (s : State) (q : Pending) (ok : Bool) : State × Except AddErr Pend
 
 /-- `resumer.Write`; on failure the torrent is closed and the port released.  `Write` puts every key
 of the bucket, so a record of the same id that failed to load is replaced (its id stays in
-`invalidTorrentIDs`). -/
+`invalidTorrentIDs` until `insertTorrent`). -/
 def addWrite (s : State) (q : Pending) (ok : Bool) : State × Except AddErr Pending :=
   if q ∉ s.pending ∨ q.stage ≠ .built then (s, .error .notPending)
   else if ok then
@@ -228,8 +228,18 @@ def addWrite (s : State) (q : Pending) (ok : Bool) : State × Except AddErr Pend
               dead := s.dead.filter (fun e => e.1 != q.id) }, .ok q')
   else ({ s with pending := s.pending.erase q, free := q.port :: s.free }, .error .write)
 
-/-- `insertTorrent` (second critical section). -/
+/-- `insertTorrent` (second critical section).  After the `fix:` commit for finding F8 it also takes
+the id off `invalidTorrentIDs` (first occurrence): the record of that id has just been written anew,
+`CleanDatabase` must not delete it. -/
 def addInsert (s : State) (q : Pending) : State × Except AddErr Pending :=
+  if q ∉ s.pending ∨ q.stage ≠ .written then (s, .error .notPending)
+  else
+    let t : Torrent := ⟨q.id, freshFields q.m q.o q.port⟩
+    ({ s with pending := s.pending.erase q, reg := regPut s.reg t, idx := s.idx ++ [(q.m.infoHash, q.id)],
+              invalid := s.invalid.erase q.id }, .ok q)
+
+/-- `insertTorrent` before the fix of finding F8: the id stays in `invalidTorrentIDs`. -/
+def addInsertUnfixed (s : State) (q : Pending) : State × Except AddErr Pending :=
   if q ∉ s.pending ∨ q.stage ≠ .written then (s, .error .notPending)
   else
     let t : Torrent := ⟨q.id, freshFields q.m q.o q.port⟩
@@ -408,19 +418,22 @@ def step (s : State) : Op → State
 
 def run (s : State) (ops : List Op) : State := ops.foldl step s
 
-/-- The histories the C14 theorems are about.  Two things are excluded, because the code breaks the
-property there (findings F07, F08; counterexample theorems in `Props/C14`):
+/-- The histories the C14 theorems are about.  Two things are excluded:
 
 * a record that failed to load loads at a later restart (its failure was transient: `MaxPieces` raised
   again, storage back): its port was free in between and may have been given to another torrent — the
-  load does not look at `availablePorts`, two live torrents then share the port;
-* an add with an explicit id that is listed in `invalidTorrentIDs`: the id stays in the list, and a
-  later `CleanDatabase` deletes the record of the live torrent. -/
+  load does not look at `availablePorts`, two live torrents then share the port (finding F7, known;
+  `reload_shares_port_counterexample` in `Props/C14`);
+* `CleanDatabase` while an add whose id is listed in `invalidTorrentIDs` is in flight (between its
+  `resumer.Write` and its `insertTorrent` the freshly written record would be deleted:
+  `clean_during_add_counterexample`) — like Close/reopen, `CleanDatabase` is assumed not to run
+  concurrently with an add.
+
+An add under an explicit id that is listed as invalid is **not** excluded any more (finding F8, fixed:
+`insertTorrent` takes the id off the list). -/
 def tame (s : State) : Op → Bool
   | .reopen _ bad => s.dead.all fun e => bad.contains e.1
-  | .add _ o _ _ _ | .abegin _ o _ _ _ => match o.id with
-    | some id => !s.invalid.contains id
-    | none => true
+  | .clean => s.pending.all fun q => !s.invalid.contains q.id
   | _ => true
 
 def tameRun (s : State) : List Op → Bool
